@@ -429,8 +429,12 @@ class Ctx:
             "wall_s": round(wall, 2),
             "violations": len(self.violations),
         }
-        if not self.replay:   # a replay run does not describe a tier's coverage
-            with open(os.path.join(ROOT, "evidence", f"{self.prop}.json"), "w") as f:
+        # a replay run does not describe a tier's coverage, and a run against a scratch tree (VERIF_REPO) must not
+        # overwrite the evidence that describes /repo: it goes to evidence/scratch/ (git-ignored)
+        ev_dir = os.path.join(ROOT, "evidence") if os.path.realpath(REPO) == "/repo" else os.path.join(ROOT, "evidence", "scratch")
+        os.makedirs(ev_dir, exist_ok=True)
+        if not self.replay:
+            with open(os.path.join(ev_dir, f"{self.prop}.json"), "w") as f:
                 json.dump(ev, f, indent=1, sort_keys=True)
                 f.write("\n")
         for k, v in sorted(self.known_hits.items()):
